@@ -1175,6 +1175,10 @@ def stage_b(run, tier):
                         "Endpoint.from_data + add_parameters (per-location (name, required, schema) sequences or error class), response_from_data reference case == coq/Refs.v"}
     for i in bad[:8]:
         mv = coq_eval(HDR, terms[i].split(" && ")[0].replace("pref_eqb (", "(", 1) if meta[i]["fn"] == "parse_reference_path" else "0")
+        if meta[i]["fn"].startswith("param_ref_inline"):
+            run.violation("proof-obligation", {**meta[i], "term": terms[i][:1500], "note": "the statement of RefsThm.param_ref_inline is false on this input for the model instantiated with the REGENERATED "
+                                               "copied-field list (gen_param_copied no longer covers what add_parameters reads)"})
+            continue
         run.violation("correspondence", {**meta[i], "term": terms[i][:1500], "model": mv[-400:], "note": "the implementation no longer behaves like coq/Refs.v, about which the C20 theorems are proved"})
     return bad
 
@@ -1231,7 +1235,37 @@ def replay_cases(run, replay):
                 run.violation("correspondence", {k: v[k] for k in v if k not in ("kind", "no_failing_input_found")})
 
 
+def ensure_cone():
+    """Recompile this property's own cone when a .vo is older than its source (stage A skips `make` when an unrelated translator fails,
+    which would leave a stale Refs.vo / RefsThm.vo behind a regenerated GenParams.v). Returns None or (file, log)."""
+    import subprocess
+    from lib.common import COQ, _lock
+    lock = _lock()
+    try:
+        stale = False
+        for f in ["gen/GenParams.v", "Refs.v", "RefsThm.v", "props/C20.v"]:
+            v = COQ / f
+            vo = v.with_suffix(".vo")
+            if stale or not vo.exists() or vo.stat().st_mtime < v.stat().st_mtime:
+                stale = True
+                r = subprocess.run(["timeout", "900", "coqc", "-R", ".", "OPC", "-w", "-notation-overridden", f], cwd=COQ, capture_output=True, text=True)
+                if r.returncode != 0:
+                    return f, (r.stdout + r.stderr)[-1500:]
+    finally:
+        lock.close()
+    return None
+
+
 def run(run, tier, replay=None):
+    cone = ensure_cone()
+    try:
+        _run(run, tier, replay)
+    finally:
+        if cone is not None and not [v for v in run.violations if not v.get("no_failing_input_found")]:
+            run.violation("proof-obligation", {"obligation": cone[0], "log": cone[1], "note": "a theorem / regenerated fact in the cone of props/C20.v no longer checks"}, no_input=True)
+
+
+def _run(run, tier, replay=None):
     run.rule = ("stage B: hostile reference strings (15 malformed forms x sections + random strings over a URL-syntax alphabet); random request-body tables (chains of canonical references to "
                 "length 6 ending in a body / a miss / a cycle, and random tables with remote / wrong-section / bare / percent-encoded / trailing-slash references); random component-parameter "
                 "tables (odd keys, parameters with and without schema, top-level references, all 13 Parameter fields) with operation-level and path-item-level lists mixing references and "
